@@ -264,16 +264,18 @@ class Sess:
             hl = 48 if self.hash == "sha384" else 32
             for e in self.d.ev:
                 if e[0] == "L" and len(e) > 8: add(site_of_expand(e, True), "" if e[5] == "-" else e[5])
-            for e in self.d.events("V"):          # psVerify input: 64 x 0x20, context string, 0, transcript hash
-                b = vlib.unhex(e[4])
-                if len(b) > 64 + 1 + hl and b[:64] == b" " * 64 and b[-hl - 1] == 0:
-                    add("cv_server" if e[1] == "0" else None, b[64:-hl - 1].hex())
-            cvs = [i for i, m in enumerate(self.msgs) if m[0] == 15]
+            # psVerify input: 64 x 0x20, context string, 0, transcript hash; which CertificateVerify it belongs to is read off
+            # the transcript hash (each side also re-verifies the signature it has just made)
+            Hf = hashlib.sha384 if hl == 48 else hashlib.sha256
+            pre = (lambda i: (self.reinit_msg + b"".join(self.msgs[1:i])) if getattr(self, "hrr", False) else b"".join(self.msgs[:i]))
             fins = [i for i, m in enumerate(self.msgs) if m[0] == 20]
-            if len(cvs) == 2 and len(fins) == 2:      # the client's CertificateVerify: the last content the server verified
-                vs = [vlib.unhex(e[4]) for e in self.d.events("V") if e[1] == "1"]
-                for b in vs[-1:]:
-                    if len(b) > 64 + 1 + hl and b[:64] == b" " * 64: add("cv_client", b[64:-hl - 1].hex())
+            tails = {}
+            for i, m in enumerate(self.msgs):
+                if m[0] == 15 and fins: tails[Hf(pre(i)).digest()] = "cv_server" if i < fins[0] else "cv_client"
+            for e in self.d.events("V"):
+                b = vlib.unhex(e[4])
+                if len(b) > 64 + 1 + hl and b[:64] == b" " * 64 and b[-hl - 1] == 0 and b[-hl:] in tails:
+                    add(tails[b[-hl:]], b[64:-hl - 1].hex())
         else:
             H = (lambda b: hashlib.md5(b).digest() + hashlib.sha1(b).digest()) if self.ver < 3 else (hashlib.sha384 if self.hash == "sha384" else hashlib.sha256)
             hh = (lambda b: H(b)) if self.ver < 3 else (lambda b: H(b).digest())
@@ -284,8 +286,8 @@ class Sess:
                 tails = {first.hex(): "client_finished" if self.full else "server_finished", second.hex(): "server_finished" if self.full else "client_finished"}
             for e in self.d.events("P"):
                 dest, seed = field(e[3]), e[5]
-                if dest == "masterSecret":
-                    if getattr(self, "ems", False): add("ext_master", seed[:-len(tails and next(iter(tails)) or "")] if tails else None) if False else add("ext_master", seed[:len(seed) - 2 * len(hh(b""))])
+                if dest == "masterSecret":           # seed = label + session_hash  /  label + client_random + server_random
+                    if getattr(self, "ems", False): add("ext_master", seed[:len(seed) - 2 * len(hh(b""))])
                     else: add("master", seed[:-128])
                 elif dest == "keyBlock": add("key_block", seed[:-128])
                 elif dest == "-":
@@ -605,6 +607,28 @@ def openssl_smoke(ck):
     return "MatrixSSL apps/ssl/client (last build in the repository) -> openssl s_server: " + "; ".join(res)
 
 
+CAPTURE_SCEN = ["cv=3 sv=3 suite=c02f", "cv=3 sv=3 suite=c02f ems=-1", "cv=2 sv=2 suite=c013", "cv=4 sv=4 suite=1301 cauth=1 scb=1",
+                "cv=4 sv=4 suite=1302 ticket=1 | cv=4 sv=4 suite=1302 ticket=1 resume=1 keepkeys=1"]
+def capture_labels(ck, h):
+    """{site: [label hex]} observed on a handful of sessions, written to a JSON file for tools/srcgen/gen_tls_labels.py"""
+    import json
+    scripts = [" ; ".join("new %s seed=%d ; hs ; dump" % (a.strip(), 11 + i) for i, a in enumerate(c.split("|"))) for c in CAPTURE_SCEN]
+    rc, outs, err = ck.run_lines(h, scripts, timeout=600)
+    sites = {}
+    for o in outs:
+        prev = None
+        for ds in [x for x in o.split(" | ") if x.startswith("dump:")]:
+            try:
+                s = Sess("capture", Dump(ds), prev, False, "", ())
+                for k, v in s.label_sites().items(): sites.setdefault(k, set()).update(v)
+                s.spec = {"master": s.d.kv.get("c.ms", "")}; prev = s
+            except Exception:
+                pass
+    path = os.path.join(ck.scratch, "label-capture.json")
+    json.dump({k: sorted(v) for k, v in sites.items()}, open(path, "w"))
+    return path
+
+
 def run(ck):
     ck.trusted += ["Coq 8.16.1 kernel (vm_compute in the RFC 8448 / PRF / label Examples)",
                    "the Gallina transcription of RFC 5246/4346/7627/5288/7905/8446 in coq/Tls/TlsSpec.v is the reference; it is pinned to the RFC 8448 simple 1-RTT trace, the TLS 1.2 PRF vector and (through coq/Crypto) to the hash/HMAC/HKDF/AES-GCM/ChaCha20-Poly1305 KATs",
@@ -614,10 +638,13 @@ def run(ck):
     ck.assumptions += ["both peers are MatrixSSL: the premaster / (EC)DHE secret and PSK are taken as inputs (what the two peers agree on), the certificate signatures themselves are C11's subject",
                        "DTLS, TLS 1.0, SSLv3, PSK / DHE / static-ECDH key exchanges and 0-RTT data are not exercised (not in the default build's mutually supported modes, or outside sess.h)"]
     ck.build_repo()
-    ck.regen([("consts.sh",), ("gen_tls_labels.py",)])
+    h = ck.cc("h_tlskeys.c", wraps=WRAPS)
+    # run-time capture of the label bytes per derivation site on a few live sessions: the translator's fallback for
+    # sites it cannot resolve statically (the full tie of the table against ALL sessions is in process())
+    cap = capture_labels(ck, h)
+    ck.regen([("consts.sh",), ("gen_tls_labels.py", cap)])
     ck.coq_properties()
     drv = ck.ocaml_driver("drv_c10", extract_vo="Extract/Extract_C10.vo", gen_ml=["m_c10"])
-    h = ck.cc("h_tlskeys.c", wraps=WRAPS)
     if drv is None:
         return
     table = build_suites(ck)
@@ -746,7 +773,7 @@ def process(ck, h, drv, table, scen, pay):
             cand = s.prev.spec.get("psks", []) if s.prev else []
             cases.append("%s :: resumption PSK = HKDF-Expand-Label(res_master, \"resumption\", ticket_nonce)" % s.name); impl.append(s.psk); model.append(s.psk if s.psk in cand else ",".join(cand) or "none")
             if s.psk not in cand:
-                ck.spec_violation("value:%s:resumption PSK" % mode, "%s: the PSK both peers used (%s) is not derived by RFC 8446 4.6.1 from the previous session's resumption master secret and ticket nonces (%s)" % (s.name, s.psk, cand),
+                ck.spec_violation("derive:tls13/%04x/resumption-psk" % s.suite, "%s: the PSK both peers used (%s) is not derived by RFC 8446 4.6.1 from the previous session's resumption master secret and ticket nonces (%s)" % (s.name, s.psk, cand),
                                   {"harness": "h_tlskeys", "script": s.script, "scenario": s.scen, "observed": s.psk, "expected_by_spec": cand})
         # signed contents
         for chk in getattr(s, "sigchecks", []):
@@ -768,6 +795,30 @@ def process(ck, h, drv, table, scen, pay):
             elif e[0] == "X": prim_lines.setdefault("hkx %d %s %s" % (1 if e[2] == "384" else 0, e[4], e[5]), e[6])
             elif e[0] == "L": prim_lines.setdefault("hel %d %s %s %s %d" % (1 if e[2] == "384" else 0, e[4], e[5], e[6], 0 if e[7] == "-" else len(e[7]) // 2), e[7])
     ck.correspond("handshakes: library values by role / wire records vs the extracted RFC spec on the same inputs", cases, impl, model)
+    # ---- labels: the bytes the library passed at every derivation site (run time, all sessions) against
+    #      (a) the table the models are built from (tools/srcgen/gen_tls_labels.py) and (b) the label the RFC gives that role
+    import json
+    rfc = parse_out(ck.run_lines(drv, ["labels"])[1][0])
+    try: gen = json.load(open(os.path.join(vlib.COQ, "Gen/TlsLabels.json")))
+    except Exception: gen = {}
+    seen = {}
+    for si, s in sessions:
+        for site, labs in s.label_sites().items():
+            for l in labs: seen.setdefault((site, l or "-"), s)
+    lc, li, lm = [], [], []
+    for (site, l), s in sorted(seen.items(), key=lambda x: x[0]):
+        lc.append("label passed at derivation site %s (first seen in %s)" % (site, s.name)); li.append(l); lm.append(rfc.get(site, "NO-RFC-LABEL"))
+        ck.count("label-site:" + site)
+        if l not in gen.get(site, []):
+            ck.obligation("label table of the models = labels passed at run time: site %s" % site, False,
+                          detail="run time %s (%r), coq/Gen/TlsLabels.v has %s" % (l, vlib.unhex(l), gen.get(site)))
+        if l != rfc.get(site):
+            ck.spec_violation("derive:tls1%d/%04x/%s-label" % (s.ver - 1 if s.ver < 4 else 3, s.suite, site.replace("_", "-")),
+                              "%s: the label passed where the %s value is derived is %r, the RFC's is %r" % (s.name, site, vlib.unhex(l), vlib.unhex(rfc.get(site, "-"))),
+                              {"harness": "h_tlskeys", "script": s.script, "scenario": s.scen, "observed": l, "expected_by_spec": rfc.get(site), "what": "label at site " + site})
+    missing = [k for k in gen if k not in ("hkdf_prefix", "ext_binder") and not any(site == k for (site, _) in seen)]
+    if missing and len(sessions) > 20: ck.notes.append("derivation sites of the label table not exercised at run time: " + ", ".join(missing))
+    ck.correspond("label bytes passed at each derivation site (run time) vs the RFC label of that role", lc, li, lm)
     # ---- primitives and signature digests
     pl = list(prim_lines)
     if ck.tier == "quick" and len(pl) > 900:
@@ -852,9 +903,9 @@ def replay(ck, path):
     if not sc:
         print("replay: no scenario recorded in %s (stage %s)" % (path, r.get("stage"))); return
     ck.build_repo()
-    ck.regen([("consts.sh",), ("gen_tls_labels.py",)])
-    drv = ck.ocaml_driver("drv_c10", extract_vo="Extract/Extract_C10.vo", gen_ml=["m_c10"])
     h = ck.cc("h_tlskeys.c", wraps=WRAPS)
+    ck.regen([("consts.sh",), ("gen_tls_labels.py", capture_labels(ck, h))])
+    drv = ck.ocaml_driver("drv_c10", extract_vo="Extract/Extract_C10.vo", gen_ml=["m_c10"])
     if drv is None: return
     name, script, applist = sc
     print("replaying scenario %s: %s" % (name, script[:300]))
